@@ -23,6 +23,7 @@ func VerifMergeOrder() {
 			rt.Assume(!math.IsNaN(v) && !math.IsInf(v, 0))
 			rt.Assume(v != 0) // signed zeros compare equal; keeps the reference fold simple
 			c.InsertNTimes(v, 1)
+			c.InsertSampleNTimes(v, 1) // as the aggregator does when quantiles are requested
 			all = append(all, v)
 		}
 		ne := int64(rt.NondetU8())
@@ -64,6 +65,60 @@ func VerifMergeOrder() {
 		}
 		rt.Assert(got.Min == mn, "min over all samples, whatever the merge order")
 		rt.Assert(got.Max == mx, "max over all samples, whatever the merge order")
+		if rt.Param("QUANTILES") == 0 {
+			rt.Reach("end")
+			return
+		}
+		// quantiles: the merged container holds exactly all samples (exact below 8096 of them)
+		rt.Assert(len(got.Samples) == len(all), "the merged container holds every sample")
+		for _, v := range all {
+			ca, cg := 0, 0
+			for _, w := range all {
+				if w == v {
+					ca++
+				}
+			}
+			for _, w := range got.Samples {
+				if w == v {
+					cg++
+				}
+			}
+			rt.Assert(ca == cg, "the merged samples are the multiset of all samples")
+		}
+		qs := []float64{0, 0.25, 0.5, 0.75, 1}
+		prev := mn
+		for _, q := range qs {
+			x := got.Quantile(q)
+			in := false
+			for _, v := range all {
+				if v == x {
+					in = true
+				}
+			}
+			rt.Assert(in, "a quantile is one of the values")
+			rt.Assert(prev <= x, "quantiles are monotone")
+			prev = x
+			if q == 0 {
+				rt.Assert(x == mn, "quantile 0 = min")
+			}
+			if q == 1 {
+				rt.Assert(x == mx, "quantile 1 = max")
+			}
+			// nearest-rank reading: at least q of the other values are not above it, at least 1-q not below
+			le, ge := 0, 0
+			for _, v := range all {
+				if v <= x {
+					le++
+				}
+				if v >= x {
+					ge++
+				}
+			}
+			n := float64(len(all))
+			rt.Assert(float64(le) >= q*(n-1)+0.5 || float64(le) == n, "enough values at or below the quantile")
+			rt.Assert(float64(ge) >= (1-q)*(n-1)+0.5 || float64(ge) == n, "enough values at or above the quantile")
+		}
+		rt.Reach("quantiles")
 	}
 	rt.Reach("end")
 }
